@@ -6,6 +6,7 @@ package main
 import (
 	"fmt"
 	"go/token"
+	"os"
 	"runtime"
 	"sort"
 	"strings"
@@ -228,6 +229,23 @@ func runPath(prog *ssa.Program, fn *ssa.Function, cfg ExploreConfig, solver *Sol
 		keepScripts: cfg.KeepScripts, concrete: concrete, wraps: map[*value]iface{}, mapOrder: cfg.MapOrder,
 	}
 	p.store.path = p
+	if os.Getenv("VERIF_PROFILE") != "" && len(prefix) == 0 {
+		p.profile = map[*ssa.Function]int{}
+		defer func() {
+			type kv struct {
+				f *ssa.Function
+				n int
+			}
+			var arr []kv
+			for f, n := range p.profile {
+				arr = append(arr, kv{f, n})
+			}
+			sort.Slice(arr, func(i, j int) bool { return arr[i].n > arr[j].n })
+			for i := 0; i < len(arr) && i < 25; i++ {
+				fmt.Fprintf(os.Stderr, "PROFILE %8d %s\n", arr[i].n, arr[i].f)
+			}
+		}()
+	}
 	if solver != nil {
 		solver.Reset()
 		p.em = NewEmitter(cfg.Enc, solver.Send)
